@@ -89,9 +89,15 @@ def gen_ty(rng, depth, used, allow_big=True, p_named=0.5, tricky=0.06):
         return ['list', None, tn, gen_ty(rng, depth - 1, set(), False, p_named, tricky)]
     if k < 0.93:
         return ['set', None, tn, gen_cty(rng, min(depth - 1, 2))]
-    if k < 0.97 or not allow_big:
+    if k < 0.955 or not allow_big:
         return ['map', None, tn, gen_cty(rng, min(depth - 1, 2)), gen_ty(rng, depth - 1, set(), False, p_named, tricky)]
     return ['big_map', None, tn, gen_cty(rng, min(depth - 1, 2)), gen_ty(rng, depth - 1, set(), False, p_named, tricky)]
+
+
+def twin(t):
+    """same shape and the same annotations, other scalar prims (what a cache keyed without the prim would confuse)"""
+    rot = {'nat': 'string', 'int': 'bytes', 'string': 'int', 'bytes': 'nat', 'bool': 'nat'}
+    return [rot.get(t[0], t[0]), t[1], t[2]] + [twin(x) for x in t[3:]]
 
 
 def gen_enum(rng, depth, used, p_named):
@@ -155,7 +161,7 @@ def vcmp(a, b):
     raise lib.InternalError(f'not comparable: {a}')
 
 
-def gen_val(rng, t, small=False):
+def gen_val(rng, t, small=False, force_ptr=None):
     p = t[0]
     if p == 'nat':
         return ('int', abs(lib.boundary_ints(rng, signed=False, big=False)) if not small else rng.randrange(4))
@@ -170,22 +176,25 @@ def gen_val(rng, t, small=False):
     if p == 'unit':
         return ('unit',)
     if p == 'pair':
-        return ('pair', gen_val(rng, t[3], small), gen_val(rng, t[4], small))
+        return ('pair', gen_val(rng, t[3], small, force_ptr), gen_val(rng, t[4], small, force_ptr))
     if p == 'or':
-        return ('left', gen_val(rng, t[3], small)) if rng.random() < 0.5 else ('right', gen_val(rng, t[4], small))
+        return ('left', gen_val(rng, t[3], small, force_ptr)) if rng.random() < 0.5 else ('right', gen_val(rng, t[4], small, force_ptr))
     if p == 'option':
-        return ('none',) if rng.random() < 0.35 else ('some', gen_val(rng, t[3], small))
+        return ('none',) if rng.random() < 0.35 else ('some', gen_val(rng, t[3], small, force_ptr))
     if p == 'list':
-        return ('seq', [gen_val(rng, t[3], small) for _ in range(rng.randrange(0, 4))])
+        return ('seq', [gen_val(rng, t[3], small, force_ptr) for _ in range(rng.randrange(0, 4))])
     if p == 'set':
         xs = uniq([gen_val(rng, t[3], True) for _ in range(rng.randrange(0, 5))])
         return ('seq', sorted(xs, key=functools.cmp_to_key(vcmp)))
     if p in ('map', 'big_map'):
-        if p == 'big_map' and rng.random() < 0.4:
-            return ('ptr', rng.randrange(0, 1000))
+        if p == 'big_map' and force_ptr is not None:
+            return ('ptr', force_ptr)
+        if p == 'big_map' and rng.random() < 0.5:
+            # ids as they appear in storage: 0 is the first big_map ever allocated; boundary and large ids
+            return ('ptr', rng.choice([0, 0, 0, 1, 1, 2, 17, 255, 256, 2 ** 31 - 1, 2 ** 31, 2 ** 63, 2 ** 64 + 5, rng.randrange(0, 100000)]))
         ks = uniq([gen_val(rng, t[3], True) for _ in range(rng.randrange(0, 4))])
         ks = sorted(ks, key=functools.cmp_to_key(vcmp))
-        return ('map', [(k, gen_val(rng, t[4], small)) for k in ks])
+        return ('map', [(k, gen_val(rng, t[4], small, force_ptr)) for k in ks])
     raise lib.InternalError(f'type {t}')
 
 
@@ -530,6 +539,7 @@ def run(ctx: lib.Ctx) -> None:
 
     cases, meta, groups = [], [], []
     viol = []
+    in_process, seen_types = [], []     # observations made in this (long-lived) process, for the history oracle
     kf_opt = ctx.finding('nested-option')
     kf_col = ctx.finding('generated-name-collision')
 
@@ -576,8 +586,12 @@ def run(ctx: lib.Ctx) -> None:
                     keys = list(r[0].values())
                     if len(set(keys)) != len(keys):
                         fail(t, None, f'field names are not unique: {keys}', {'layout': repr(r)})
-        for _ in range(nvals):
-            v = gen_val(rng, t)
+        forced = [None] * nvals
+        if 'big_map' in json.dumps(t):
+            forced += [0, rng.choice([1, 2, 2 ** 31, 2 ** 64 + 5])]
+        seen_types.append((t, None))
+        for fp in forced:
+            v = gen_val(rng, t, force_ptr=fp)
             m = val_json(t, v)
             okn, norm = lib.call(lambda: impl.T.from_micheline_value(m).to_micheline_value(mode='readable', lazy_diff=None))
             if not okn:
@@ -590,6 +604,9 @@ def run(ctx: lib.Ctx) -> None:
                 continue
             emit(f'to:{"ok" if ok else "reject"}', f'(QTo {val_coq(v)})', f'(ATo {cok(oc)})',
                  sample={'type': ty_json(t), 'value': m, 'python': repr(o)[:200]})
+            if ok and nontrivial:
+                in_process.append((t, m, repr(o), len(seen_types) - 1))
+                seen_types[-1] = (t, m)
             # (B) round trip
             if not ok:
                 fail(t, v, f'to_python_object raised {o!r}', {'value': m})
@@ -651,7 +668,7 @@ def run(ctx: lib.Ctx) -> None:
         ctx.corpus_cases += 1
     for t in FIXED_TYPES:
         add_type(t, 4, 'fixed')
-    ntypes = ctx.n(220, 4000)
+    ntypes = ctx.n(140, 4000)
     for i in range(ntypes):
         depth = rng.choice([1, 2, 2, 3, 3, 4])
         k = rng.random()
@@ -659,17 +676,21 @@ def run(ctx: lib.Ctx) -> None:
         if rng.random() < 0.3:
             t[1] = gen_annot(rng, set(), 0.3)
         add_type(t, ctx.n(3, 4), 'gen')
+        if rng.random() < 0.2:
+            add_type(twin(t), 1, 'twin')
 
     def report(what, extra):
         if len(viol) < 3:
             viol.append(1)
             ctx.violation(what, extra)
+    started = history_start(ctx, in_process)
     entrypoint_checks(ctx, report)
 
     bad_groups = ctx.coq_mismatches('py', IMPORTS, 'fun c => map (run_query (fst c)) (snd c)', 'list_eqb answer_eqb',
                                     'aty * list query', 'list answer', cases, shard=50)
+    history_oracle(ctx, started, in_process, seen_types, report)
     bad = []
-    for g in bad_groups:
+    for g in ([] if viol else bad_groups[:3]):     # pin down single queries only when no failing input is known yet
         lo, hi = groups[g]
         sub = [(f'({ty_coq(meta[i][0])}, {meta[i][2]})', meta[i][3]) for i in range(lo, hi)]
         sb = ctx.coq_mismatches('py1', IMPORTS, 'fun c => run_query (fst c) (snd c)', 'answer_eqb', 'aty * query', 'answer', sub)
@@ -762,6 +783,76 @@ def entrypoint_checks(ctx, report):
                     report(why, {'parameter': expr, 'entrypoint': e, 'argument': a,
                                  'repro': "ctx=ExecutionContext(); ctx.parameter_expr=parameter; ContractEntrypoint(ctx, entrypoint).encode(<python object of argument>)"})
 
+def fresh_eval(steps):
+    """run harness/c12_fresh.py: the steps, in order, in a new interpreter; one observation per step"""
+    import subprocess
+    import sys
+    r = subprocess.run([sys.executable, os.path.join(os.path.dirname(os.path.abspath(__file__)), 'c12_fresh.py')],
+                       input=json.dumps(steps), capture_output=True, text=True, timeout=900)
+    if r.returncode != 0:
+        raise lib.InternalError(f'c12_fresh.py failed: {r.stderr[-1500:]}')
+    return json.loads(r.stdout)
+
+
+def history_start(ctx, in_process):
+    """launch the reversed-order run in a new interpreter (runs while coqc evaluates the model)"""
+    import concurrent.futures
+    cap = ctx.n(600, 6000)
+    sample = in_process if len(in_process) <= cap else ctx.rng.sample(in_process, cap)
+    ex = concurrent.futures.ThreadPoolExecutor(max_workers=1)
+    return sample, ex.submit(fresh_eval, [{'type': ty_json(t), 'value': m} for t, m, _, _ in reversed(sample)])
+
+
+def history_oracle(ctx, started, in_process, seen_types, report):
+    """Field names (and the whole documented object) must be a function of the type only.  The (type, value) pairs this
+    long-lived process converted are converted again by a new interpreter in REVERSE order; any dependence on what was
+    converted before shows up as a difference for at least one member of each confused pair of types.  On a difference
+    the search looks for a single predecessor type that reproduces it in a new interpreter: the witness is that
+    two-step sequence, checked against the one-step run."""
+    import concurrent.futures
+    if not in_process:
+        return
+    sample, other_f = started
+    other = list(reversed(other_f.result()))
+    ctx.extra['history_oracle_cases'] = len(sample)
+    reported = 0
+    for (t, m, seen, pos), ot in zip(sample, other):
+        ctx.case(('history', json.dumps(ty_json(t)), json.dumps(m)), nontrivial=True, kind='history-oracle')
+        if ot.get('python') == seen or reported >= 2:
+            continue
+        reported += 1
+        step = {'type': ty_json(t), 'value': m}
+
+        def shape(x):
+            return [x[1], x[2]] + [shape(y) for y in x[3:]]
+        # candidate predecessors: every type this process (or the reversed run) converted, same annotations/shape first
+        cands = [(u, um) for u, um in seen_types if um is not None and u != t]
+        cands.sort(key=lambda c: 0 if shape(c[0]) == shape(t) else 1 if c[0][0] == t[0] else 2)
+        cands = cands[:12]
+        with concurrent.futures.ThreadPoolExecutor(max_workers=6) as ex:
+            alone_f = ex.submit(fresh_eval, [step])
+            after_f = [ex.submit(fresh_eval, [{'type': ty_json(u), 'value': um}, step]) for u, um in cands]
+            alone = alone_f.result()[0]
+            after = [f.result()[1] for f in after_f]
+        doc = {'type': ty_json(t), 'type_tuple': t, 'value': m, 'python_in_new_interpreter': alone.get('python'),
+               'layouts_in_new_interpreter': alone.get('layouts'), 'python_in_this_process': seen,
+               'python_in_reversed_run': ot.get('python')}
+        witness = next(((u, um, ar) for (u, um), ar in zip(cands, after) if ar.get('python') != alone.get('python')), None)
+        if witness:
+            u, um, ar = witness
+            doc.update({'sequence': [{'type': ty_json(u), 'value': um}, step],
+                        'python_after_predecessor': ar.get('python'), 'layouts_after_predecessor': ar.get('layouts'),
+                        'error_after_predecessor': ar.get('error'),
+                        'repro': "for s in sequence: T=MichelsonType.match(s['type']); print(T.from_micheline_value(s['value']).to_python_object(lazy_diff=None))"
+                                 "  # in one interpreter; the last line differs from what a new interpreter prints for the last step alone"})
+            report(f'field names are not a function of the type: after converting a value of {ty_json(u)}, the value {m} of {ty_json(t)} '
+                   f'converts to {ar.get("python")}; alone it converts to {alone.get("python")}', doc)
+        else:
+            doc['repro'] = 'convert the (type, value) pairs of this run in order (seed in this file) and in reverse order'
+            report(f'field names are not a function of the type: {m} of {ty_json(t)} converts to {seen} in this process, to '
+                   f'{ot.get("python")} after other types and to {alone.get("python")} in a new interpreter', doc)
+
+
 def maybe_unmodelled(t, o):
     """Conservative test for mutated objects: could a bool reach an int/nat/big_map reader, or a str a bytes reader?
     (Python accepts those — bool is an int, bytes may be given as hex text — the model does not cover them.)"""
@@ -832,11 +923,33 @@ FIXED_TYPES = [
     ['big_map', None, None, S('nat'), ['pair', None, None, S('nat', 'x'), S('int')]],
     ['map', None, None, S('unit'), S('nat')],
     ['option', None, None, S('unit')],
+    # storage-like: big_maps below records / options / unions (ids 0, 1, large are forced for every type with a big_map)
+    ['pair', None, None, ['big_map', 'ledger', None, S('string'), S('nat')], S('nat', 'total')],
+    ['pair', None, None, ['big_map', None, None, S('nat'), S('nat')], ['pair', None, None, ['big_map', 'meta', None, S('string'), S('bytes')], S('unit')]],
+    ['option', None, None, ['big_map', None, None, S('nat'), S('nat')]],
+    ['or', None, None, ['big_map', 'a', None, S('nat'), S('nat')], S('nat', 'b')],
+    ['big_map', None, None, S('nat'), S('nat')],
+    # twins: same annotations and shape, other prims
+    ['pair', None, None, S('nat', 'a'), S('int')],
+    ['pair', None, None, S('nat', 'a'), S('string')],
+    ['or', None, None, S('nat', 'a'), S('int')],
+    ['or', None, None, S('nat', 'a'), S('bytes')],
+    ['pair', None, None, S('nat', 'a'), S('int', 'a')],
+    ['pair', None, None, S('nat', 'a'), S('string', 'a')],
 ]
 
 
 def replay(ctx: lib.Ctx, doc: dict) -> int:
     """./check C12 --replay file: re-run the stored input on the current /repo; 1 = the round trip still fails on it."""
+    if 'sequence' in doc:
+        seq = doc['sequence']
+        after = fresh_eval(seq)[-1]
+        alone = fresh_eval(seq[-1:])[0]
+        print(f"replay: last step alone            -> {alone.get('python')} {alone.get('error') or ''}")
+        print(f"replay: last step after the others -> {after.get('python')} {after.get('error') or ''}")
+        bad = after.get('python') != alone.get('python')
+        print('replay: ' + ('FAILS: the documented object depends on what was converted before' if bad else 'property holds on this input now'))
+        return 1 if bad else 0
     if 'type_tuple' not in doc or 'value' not in doc:
         print('replay: no (type, value) input in this file (layout / entrypoint / correspondence-only verdict)')
         return 0
